@@ -1,6 +1,8 @@
 /-
 C05 — `open_with_detected_encoding` / `open` / `mutate`: which encoding is detected, what a fault-free
-`mutate` writes and in which order.
+`mutate` writes and in which order; what is written parses back, and a second no-op save changes no byte
+(section 6, over a codec `c` with `c.Law` and a tokenizer `M` with `M.Contract`; concrete instances with the
+modelled msdparser are in Props/C05Concrete.lean).
 Vocabulary (Simfile/Lemmas/Mutate.lean):
   `Mut.NoClash c`  : `∀ b, given c.backup = some b → b ≠ c.input ∧ some b ≠ c.output`
   `Mut.writeSide`  : `openW`, `write`, `close` (everything except `openR`)
@@ -8,6 +10,8 @@ Vocabulary (Simfile/Lemmas/Mutate.lean):
 -/
 import Simfile.Gen.Tables
 import Simfile.Lemmas.Mutate
+import Simfile.Lemmas.Codec
+import Simfile.Props.C04
 namespace Simfile.C05
 open Simfile Simfile.Mut
 
@@ -165,6 +169,113 @@ theorem write_order (c : MutateCfg) (enc : Str) (b : Str) (hnc : NoClash c) (hb 
 theorem write_only_output (c : MutateCfg) (enc : Str) (hb : given c.backup = none) :
     saveOps c enc = [FsOp.openW c.outPath enc, FsOp.write c.outPath, FsOp.close c.outPath] :=
   saveOps_none hb enc
+
+/-! ### 6. what is written parses back; a second no-op save changes no byte
+
+`writtenSM M c s` / `writtenSSC M c s` are the bytes `mutate` writes for the simfile `s` in the detected encoding
+`c` (Model/Codec.lean); `readSM` / `readSSC` decode with the same codec, tokenize strictly and load. The msdparser
+enters through its contract `M.Contract`, the codec through `c.Law` (decode ∘ encode = id on encodable text). -/
+
+/-- the bytes written for `s` decode and load to exactly `s`: the output clause for the simfile at block exit,
+and the backup clause for the simfile at block entry -/
+theorem output_parses_back_sm (M : Msd) (hM : M.Contract) (c : Codec) (hc : c.Law) (s : SMSimfile)
+    (h : C01.DomSM s) (hs : safeDoc (serSM s) = true) (b : List UInt8) (hw : writtenSM M c s = some b) :
+    readSM M c b = some s := by
+  rw [Cd.readSM_of_decode M c b _ _ (Cd.decode_writtenSM M c hc s b hw)
+    (hM.roundtrip (serSM s) true (C01.texts_blank s) hs), C01.roundtrip_params s h]
+
+/-- SSC: the bytes written for `s` decode and load to `s` with each chart's note data moved last -/
+theorem output_parses_back_ssc (M : Msd) (hM : M.Contract) (c : Codec) (hc : c.Law) (s : SSCSimfile)
+    (h : C02.DomSSC s) (hs : (serSSC s).map safeDoc = .ok true) (b : List UInt8)
+    (hw : writtenSSC M c s = some b) : readSSC M c b = some s.notesLast := by
+  have hser := C02.serSSC_eq s h
+  rw [hser] at hs
+  have hs' : safeDoc (O.sscItems s) = true := Except.ok.inj (hs : Except.ok (safeDoc (O.sscItems s)) = _)
+  rw [Cd.writtenSSC_of_ser M c s _ hser] at hw
+  rw [Cd.readSSC_of_decode M c b _ _ (hc _ _ hw)
+    (hM.roundtrip (O.sscItems s) true (O.text_mem_sscItems s) hs'), C02.load_sscItems s h]
+
+/-- if moreover every chart already ends with its note data, the bytes load to `s` itself -/
+theorem output_parses_back_ssc_eq (M : Msd) (hM : M.Contract) (c : Codec) (hc : c.Law) (s : SSCSimfile)
+    (h : C02.DomSSC s) (hl : ∀ ch ∈ s.charts, ch.props.getLast?.map (·.1) = some (notesKey ch))
+    (hs : (serSSC s).map safeDoc = .ok true) (b : List UInt8)
+    (hw : writtenSSC M c s = some b) : readSSC M c b = some s := by
+  rw [output_parses_back_ssc M hM c hc s h hs b hw]
+  have h1 := C02.roundtrip_params s h
+  rw [C02.roundtrip_eq s h hl] at h1
+  exact congrArg some (Except.ok.inj h1).symm
+
+/-- every SM simfile that was read from a file can be written and read again: a file `b₀` that loads as `s`,
+saved without change as `b₁`, reads back as `s`, and saving that again writes `b₁` again -/
+theorem noop_idempotent_sm (M : Msd) (hM : M.Contract) (c : Codec) (hc : c.Law) (b₀ b₁ : List UInt8)
+    (s : SMSimfile) (hr : readSM M c b₀ = some s) (hs : safeDoc (serSM s) = true)
+    (hw : writtenSM M c s = some b₁) :
+    readSM M c b₁ = some s ∧ writtenSM M c s = some b₁ := by
+  obtain ⟨t, ps, _, _, hl⟩ := (Cd.readSM_some_iff M c b₀ s).mp hr
+  exact ⟨output_parses_back_sm M hM c hc s (C04.loaded_in_dom_sm ps s hl) hs b₁ hw, hw⟩
+
+/-- the same with the second save made explicit: whatever is read from the written file `b₁` is written as
+`b₁` again — a no-op mutate on a file it has already written leaves every byte unchanged -/
+theorem noop_bytes_stable_sm (M : Msd) (hM : M.Contract) (c : Codec) (hc : c.Law) (b₀ b₁ : List UInt8)
+    (s : SMSimfile) (hr : readSM M c b₀ = some s) (hs : safeDoc (serSM s) = true)
+    (hw : writtenSM M c s = some b₁) :
+    ∀ s', readSM M c b₁ = some s' → writtenSM M c s' = some b₁ := by
+  intro s' hs'
+  rw [(noop_idempotent_sm M hM c hc b₀ b₁ s hr hs hw).1] at hs'
+  cases hs'; exact hw
+
+/-- SSC: a file `b₀` that loads as `s₀` (every chart with note data), saved without change as `b₁`. The first
+save normalises (`b₁` reads as `s₁ = s₀.notesLast`); from then on the bytes are stable: saving `s₁` writes `b₁`
+again and `b₁` reads as `s₁` again. -/
+theorem noop_idempotent_ssc (M : Msd) (hM : M.Contract) (c : Codec) (hc : c.Law) (b₀ b₁ : List UInt8)
+    (s₀ : SSCSimfile) (hr : readSSC M c b₀ = some s₀)
+    (hnotes : ∀ ch ∈ s₀.charts, ∃ n, ch.props.get? (notesKey ch) = some (some n))
+    (hs : (serSSC s₀).map safeDoc = .ok true) (hw : writtenSSC M c s₀ = some b₁) :
+    readSSC M c b₁ = some s₀.notesLast ∧ writtenSSC M c s₀.notesLast = some b₁ ∧
+    ∀ s', readSSC M c b₁ = some s' → writtenSSC M c s' = some b₁ ∧ s'.notesLast = s' := by
+  obtain ⟨t, ps, _, _, rfl⟩ := (Cd.readSSC_some_iff M c b₀ s₀).mp hr
+  have hdom := C04.loaded_in_dom_ssc ps hnotes
+  have h1 := output_parses_back_ssc M hM c hc _ hdom hs b₁ hw
+  have h2 : writtenSSC M c (loadSSC ps).notesLast = some b₁ := by
+    rw [Cd.writtenSSC_congr M c _ _ (C02.reserialize_stable (loadSSC ps))]; exact hw
+  refine ⟨h1, h2, ?_⟩
+  intro s' hs'
+  rw [h1] at hs'
+  cases hs'
+  exact ⟨h2, C02.notesLast_idem _⟩
+
+/-- stated for the file after the first save: with `s₁ := (loadSSC ps).notesLast` the simfile read from the
+first save's bytes `b₁`, the second no-op save writes `b₁` and reading gives `s₁` again -/
+theorem noop_idempotent_ssc_params (M : Msd) (hM : M.Contract) (c : Codec) (hc : c.Law) (ps : List Param)
+    (hnotes : ∀ ch ∈ (loadSSC ps).charts, ∃ n, ch.props.get? (notesKey ch) = some (some n))
+    (hs : (serSSC (loadSSC ps)).map safeDoc = .ok true) (b₁ : List UInt8)
+    (hw : writtenSSC M c (loadSSC ps) = some b₁) :
+    let s₁ := (loadSSC ps).notesLast
+    readSSC M c b₁ = some s₁ ∧ writtenSSC M c s₁ = some b₁ ∧
+    ∀ b₂, writtenSSC M c s₁ = some b₂ → b₂ = b₁ ∧ readSSC M c b₂ = some s₁ := by
+  intro s₁
+  have hdom := C04.loaded_in_dom_ssc ps hnotes
+  have h1 := output_parses_back_ssc M hM c hc _ hdom hs b₁ hw
+  have h2 : writtenSSC M c s₁ = some b₁ := by
+    rw [Cd.writtenSSC_congr M c _ _ (C02.reserialize_stable (loadSSC ps))]; exact hw
+  refine ⟨h1, h2, ?_⟩
+  intro b₂ hb₂
+  rw [h2] at hb₂
+  cases hb₂
+  exact ⟨rfl, h1⟩
+
+/-! non-vacuity of the codec hypothesis: ASCII satisfies `Law`, and with it the blank simfiles are written -/
+
+example : Cd.asciiCodec.Law := Cd.asciiCodec_law
+example : Cd.asciiCodec.encode "#TITLE:a;\n".toList =
+    some [35, 84, 73, 84, 76, 69, 58, 97, 59, 10] := by decide +kernel
+example : Cd.asciiCodec.encode "é".toList = none := by decide +kernel
+/-- for every renderer, a simfile whose rendered text is ASCII is written -/
+example (M : Msd) (s : SMSimfile) (h : (M.renderDoc (serSM s)).all (fun ch => ch.toNat < 128) = true) :
+    ∃ b, writtenSM M Cd.asciiCodec s = some b := by
+  unfold writtenSM Cd.asciiCodec
+  simp only [h, if_true]
+  exact ⟨_, rfl⟩
 
 /-! ### non-vacuity -/
 
